@@ -234,6 +234,25 @@ func (q *c14Queue) Subscribe() <-chan struct{}                { return q.inner.S
 func (q *c14Queue) Unsubscribe(ch <-chan struct{})            { q.inner.Unsubscribe(ch) }
 func (q *c14Queue) Update() error                             { return q.inner.Update() }
 
+// c14QView is what the model pool's oracle needs to know about the queue:
+// the snapshot the scheduler took last, whether a container needs a fresh
+// Lock before it may be started, and the API server's truth.
+type c14QView interface {
+	snapshot() map[string]container.QueueEnt
+	needsLock(uuid string) bool
+	truthOf(uuid string) (arvados.Container, bool)
+}
+
+func (q *c14Queue) needsLock(uuid string) bool {
+	q.mu.Lock()
+	defer q.mu.Unlock()
+	return q.needLock[uuid]
+}
+
+func (q *c14Queue) truthOf(uuid string) (arvados.Container, bool) {
+	return q.inner.C14TruthOf(uuid)
+}
+
 // ---------------------------------------------------------------- model pool
 
 type c14MProc struct {
@@ -252,8 +271,14 @@ type c14MWorker struct {
 type c14Viol struct{ sig, detail string }
 
 type c14Pool struct {
-	mu        sync.Mutex
-	q         *c14Queue
+	mu sync.Mutex
+	q  c14QView
+	// onStart, if set, is an additional oracle evaluated at every
+	// StartContainer call (with p.mu held)
+	onStart func(p *c14Pool, it arvados.InstanceType, ctr arvados.Container)
+	// onCall, if set, is called at the entry of the pool methods the
+	// scheduler uses inside a pass (environment moves inside a pass)
+	onCall    func(method string)
 	workers   []*c14MWorker
 	exited    map[string]time.Time
 	atQuota   bool
@@ -445,21 +470,19 @@ func (p *c14Pool) StartContainer(it arvados.InstanceType, ctr arvados.Container)
 		// exited; if that process already changed the container in the API
 		// (Running / Complete -- only processes set these) the container is
 		// not "currently Locked", the queue cache just lags behind.
-		for _, c := range p.q.inner.C14Truth() {
-			if c.UUID == u && (c.State == arvados.ContainerStateRunning || c.State == arvados.ContainerStateComplete) {
-				p.bad("C14:S2:start-after-own-process-exited:api-state-"+string(c.State), fmt.Sprintf(
-					"StartContainer(%s): the pool reports its crunch-run as exited, that process left the container %s in the API, only the queue cache still says Locked", u, c.State))
-			}
+		if c, ok := p.q.truthOf(u); ok && (c.State == arvados.ContainerStateRunning || c.State == arvados.ContainerStateComplete) {
+			p.bad("C14:S2:start-after-own-process-exited:api-state-"+string(c.State), fmt.Sprintf(
+				"StartContainer(%s): the pool reports its crunch-run as exited, that process left the container %s in the API, only the queue cache still says Locked", u, c.State))
 		}
+	}
+	if p.onStart != nil {
+		p.onStart(p, it, ctr)
 	}
 	p.evals++
 	if p.passKillTrue[u] {
 		p.bad("C14:S1:start-after-kill-returned-true", fmt.Sprintf("StartContainer(%s) although KillContainer returned true (process still there) earlier in this pass", u))
 	}
-	p.q.mu.Lock()
-	need := p.q.needLock[u]
-	p.q.mu.Unlock()
-	if need {
+	if p.q.needsLock(u) {
 		p.bad("C14:S4:start-without-fresh-lock", fmt.Sprintf("StartContainer(%s) after it was unlocked/seen Queued, with no successful Lock since", u))
 	}
 	// ---- model behaviour (mirrors worker.Pool.StartContainer)
@@ -575,6 +598,12 @@ func TestVerifC14(t *testing.T) {
 		sc := c14Gen(rng)
 		run.Input(sc, false)
 		c14RunScenario(run, ctx, sc, i)
+	})
+	// the same scheduler code on the REAL container.Queue and a stub API
+	run.Cases("realq", run.N(24000, 450000), func(i int, rng *verifkit.Rand) {
+		sc := c14RQGen(rng)
+		run.Input(sc, false)
+		c14RunRealQ(run, ctx, sc, i)
 	})
 }
 
